@@ -137,6 +137,12 @@ func UnescapedString(u *nurl.URL) string {
 			}
 		}
 		path := u.Path
+		if strings.ContainsAny(path, "%?#") {
+			// These characters would change the meaning of the URL if they were
+			// written unescaped ("/100%25/x" is not "/100%/x", "/a%3Fb" is not
+			// "/a?b"), so they stay escaped.
+			path = strings.NewReplacer("%", "%25", "?", "%3F", "#", "%23").Replace(path)
+		}
 		if path != "" && path[0] != '/' && u.Host != "" {
 			buf.WriteByte('/')
 		}
